@@ -351,6 +351,67 @@ def r6_omittable(repo):
     return obs
 
 
+def r7_feasibility_shape(repo):
+    """The feasibility test itself: shape of its two verification loops (necessary conditions of its meaning)."""
+    obs = []
+    f = repo.fn(TDA + ".is_combination_feasible")
+    fn = f.node
+    graph, comb = f.params[:2]
+    rets = [n for n in iter_own_nodes(fn) if isinstance(n, ast.Return)]
+    true_rets = [r for r in rets if const_value(r.value) is True]
+    ok = len(true_rets) == 1 and true_rets[0] is fn.body[-1] and \
+        all(const_value(r.value, 1) is False for r in rets if r not in true_rets)
+    obs.append(Ob("C03-R7", "is_combination_feasible:True-only-after-all-verification", _w(f), ok,
+                  "the only positive answer must be the last statement, after both verification loops; every other return is False"))
+    loops = [n for n in fn.body if isinstance(n, ast.For)]
+    ok = len(loops) == 3 and all(src(l.iter) == comb for l in loops)
+    obs.append(Ob("C03-R7", "is_combination_feasible:three-passes-over-the-whole-combination", _w(f), ok,
+                  "edge removal, declaration verification and type-argument verification must each iterate over the whole combination"))
+    if ok:
+        rm, v1, v2 = loops
+        calls = {call_name(c): c for c in calls_in(rm)}
+        ok1 = "_handle_declaration_node" in calls and "_handle_type_inst_call_node" in calls and \
+            any(pol and "DeclarationNode" in s_ for s_, pol in _g(calls["_handle_declaration_node"], stop=rm)) and \
+            any(pol and "TypeConstructorInstantiationCallNode" in s_ for s_, pol in _g(calls["_handle_type_inst_call_node"], stop=rm))
+        obs.append(Ob("C03-R7", "is_combination_feasible:removal-dispatch", _w(f, rm), ok1,
+                      "declared edges are removed with the helper that matches the node kind"))
+        dfs = [c for c in calls_in(v1) if call_name(c) == "dfs"]
+        neg = [r for r in rets if is_within(r, v1)]
+        ok2 = len(dfs) == 1 and [src(a) for a in dfs[0].args] == [graph, src(v1.target)] and len(neg) == 1
+        if ok2:
+            gs = _g(neg[0], stop=v1)
+            ok2 = any(pol and " ".join(s_.split()) == "n.t != %s.decl.get_type()" % src(v1.target) for s_, pol in gs) and \
+                any(pol and "isinstance(n," in s_ and "TypeNode" in s_ for s_, pol in gs)
+        obs.append(Ob("C03-R7", "is_combination_feasible:omitted-declaration-reaches-only-its-own-type", _w(f, v1), ok2,
+                      "for every omitted declaration, any type node reachable from it (dfs over the reduced graph) with a "
+                      "type different from the declaration's type must make the combination infeasible"))
+        dfs2 = [c for c in calls_in(v2) if call_name(c) == "dfs"]
+        neg2 = [r for r in rets if is_within(r, v2)]
+        ok3 = len(dfs2) == 1 and src(dfs2[0].args[0]) == graph and len(neg2) == 1 and \
+            isinstance(neg2[0]._parent, ast.If) and src(neg2[0]._parent.test) == "not is_ok" and \
+            neg2[0]._parent._parent in [x for x in ast.walk(v2) if isinstance(x, ast.For)]
+        sets = [n for n in iter_own_nodes(v2) if isinstance(n, ast.Assign) and src(n.targets[0]) == "is_ok"]
+        ok3 = ok3 and any(const_value(s_.value, 1) is False for s_ in sets) and \
+            any("assigned_t" in src(s_.value) and "n.t ==" in src(s_.value) for s_ in sets) and \
+            any("removed_decls" in src(s_.value) and "not in" in src(s_.value) for s_ in sets)
+        obs.append(Ob("C03-R7", "is_combination_feasible:omitted-type-argument-still-reaches-its-assigned-type", _w(f, v2), ok3,
+                      "for every omitted type argument the corresponding type variable must still reach a type node equal to "
+                      "the assigned type that does not hang off a declaration whose type was removed too; otherwise False"))
+    h = repo.fn(TDA + "._handle_declaration_node")
+    apps = [c for c in calls_in(h.node) if call_name(c) == "append" and src(c.func.value) == "new_edges"]
+    ok = len(apps) == 1 and ("e.is_declared()", False) in _g(apps[0])
+    st = [n for n in iter_own_nodes(h.node) if isinstance(n, ast.Assign) and src(n.targets[0]) == "%s[%s]" % (h.params[0], h.params[1])]
+    ok = ok and len(st) == 1 and src(st[0].value) == "new_edges"
+    obs.append(Ob("C03-R7", "_handle_declaration_node:keeps-exactly-the-inferred-edges", _w(h), ok,
+                  "omitting a declared type removes the declared edges of that node and keeps the inferred ones"))
+    h = repo.fn(TDA + "._handle_type_inst_call_node")
+    comp = [n for n in iter_own_nodes(h.node) if isinstance(n, ast.ListComp)]
+    ok = len(comp) == 1 and [src(i) for i in comp[0].generators[0].ifs] == ["not e.is_declared()"]
+    obs.append(Ob("C03-R7", "_handle_type_inst_call_node:drops-declared-edges-of-the-type-variables", _w(h), ok,
+                  "omitting explicit type arguments removes the declared edges of the call's type variables"))
+    return obs
+
+
 def rules():
     return [
         RuleSpec("C03-R1", "write set of the erasure mutation's call-graph closure", 8, r1_write_set),
@@ -359,6 +420,7 @@ def rules():
         RuleSpec("C03-R4", "bookkeeping field is not read by translators / equality", 1, r4_bookkeeping_unread),
         RuleSpec("C03-R5", "visitors return their node (identity rewrite)", 5, r5_identity_visitors),
         RuleSpec("C03-R6", "what is omittable", 7, r6_omittable),
+        RuleSpec("C03-R7", "shape of the feasibility test (verification passes)", 7, r7_feasibility_shape),
     ]
 
 
@@ -429,6 +491,27 @@ def _v_translator_reads_bookkeeping(tree):
     f.body.insert(0, V.parse_stmts("_tps = node.type_parameters")[0])
 
 
+def _v_feasible_skips_typeargs(tree):
+    f = V.find_def(tree, "is_combination_feasible")
+    loops = [n for n in f.body if isinstance(n, ast.For)]
+    if len(loops) != 3:
+        raise V.SkipVariant("loops")
+    iff = V.one([n for n in ast.walk(loops[2]) if isinstance(n, ast.If) and ast.unparse(n.test) == "not is_ok"])
+    iff.test = V.parse_expr("not is_ok and n.parent_id")
+
+
+def _v_feasible_subtype_ok(tree):
+    f = V.find_def(tree, "is_combination_feasible")
+    iff = V.one([n for n in ast.walk(f) if isinstance(n, ast.If) and "n.t != node.decl.get_type()" in ast.unparse(n.test)])
+    iff.test = V.parse_expr("not n.t.is_subtype(node.decl.get_type())")
+
+
+def _v_keep_declared(tree):
+    f = V.find_def(tree, "_handle_declaration_node")
+    iff = V.one([n for n in ast.walk(f) if isinstance(n, ast.If) and ast.unparse(n.test) == "not e.is_declared()"])
+    iff.test = V.parse_expr("True")
+
+
 def _t_rename(tree):
     f = _vf(tree)
     V.rename_local(f, "c_type_graph", "graph_copy")
@@ -449,6 +532,9 @@ def variants():
         V.Variant("visitor returns None", te, _v_visitor_returns_none, {"C03-R5"}),
         V.Variant("every declaration omittable (parameters, fields)", "src/analysis/type_dependency_analysis.py", _v_params_omittable, {"C03-R6"}),
         V.Variant("translator reads the bookkeeping field", "src/translators/kotlin.py", _v_translator_reads_bookkeeping, {"C03-R4"}),
+        V.Variant("feasibility: unreachable type argument tolerated for top-level nodes", "src/analysis/type_dependency_analysis.py", _v_feasible_skips_typeargs, {"C03-R7"}),
+        V.Variant("feasibility: a reachable subtype counts as the same type", "src/analysis/type_dependency_analysis.py", _v_feasible_subtype_ok, {"C03-R7"}),
+        V.Variant("omitting a declaration keeps its declared edges", "src/analysis/type_dependency_analysis.py", _v_keep_declared, {"C03-R7"}),
         V.Variant("twin: rename locals in visit_func_decl", te, _t_rename, None, twin=True),
         V.Variant("twin: whole tree reformatted by ast.unparse", None, None, None, twin=True),
     ]
